@@ -96,16 +96,20 @@ func (s *sock) Send(observer func(duration time.Duration), command ...string) ([
 	// we've distinct threads using and cleaning up socket instances
 	s.lock()
 	defer s.unlock()
+	// interactive means that every response ends with a prompt, so a connection
+	// closed without it is a command whose response was lost, not an empty response
+	interactive := s.keepalive
 	if !s.keepalive && len(command) > 1 {
 		// reuse the same connection to send more than one command
 		if _, err := s.send("prompt"); err != nil {
 			return nil, err
 		}
+		interactive = true
 	}
 	var msg []string
 	for _, cmd := range command {
 		start := time.Now()
-		response, err := s.send(cmd)
+		response, err := s.sendCmd(cmd, interactive)
 		if err != nil {
 			s.close()
 			return msg, err
@@ -147,6 +151,10 @@ func (s *sock) close() error {
 }
 
 func (s *sock) send(cmd string) (string, error) {
+	return s.sendCmd(cmd, false)
+}
+
+func (s *sock) sendCmd(cmd string, needPrompt bool) (string, error) {
 	c, err := s.acquireConn()
 	if err != nil {
 		return "", fmt.Errorf("error connecting to %s: %w", s.address, err)
@@ -176,6 +184,9 @@ func (s *sock) send(cmd string) (string, error) {
 			return "", fmt.Errorf("error reading response from %s: %w", s.address, err)
 		}
 		response += string(s.buffer[:r])
+		if r == 0 && needPrompt {
+			return "", fmt.Errorf("connection to %s was closed before the end of the response", s.address)
+		}
 		if r == 0 ||
 			strings.HasSuffix(response, "\n> ") ||
 			strings.HasSuffix(response, "master> ") ||
